@@ -112,3 +112,184 @@ def max_param_delta(a, b):
 def bank_leaves(module):
     leaves, _ = jax.tree_util.tree_flatten_with_path(module)
     return [(jax.tree_util.keystr(path), np.asarray(leaf)) for path, leaf in leaves if _is_bank_path(path) and eqx.is_array(leaf)]
+
+
+# --------------------------------------------------------------------------- model construction
+
+ACTS = {"relu": "relu", "gelu": "gelu", "tanh": "tanh", "none": None}
+MODEL_CLASSES = ["UNet", "ResNet", "DilResNet", "ConvBlock"]
+
+
+def draw_model_cfg(data, tier, equivariant=None, allow_d3=True, classes=None):
+    """Constructor space of C07 / C20 (JSON-able)."""
+    from hypothesis import strategies as st
+
+    cls = data.draw(st.sampled_from(classes or MODEL_CLASSES), label="cls")
+    d = data.draw(st.sampled_from([2, 2, 2, 3] if allow_d3 else [2]), label="d")
+    eqv = data.draw(st.sampled_from([True, True, False]), label="equivariant") if equivariant is None else equivariant
+    group_norm = data.draw(st.booleans(), label="group_norm")
+    kmax = 1 if (group_norm or d == 3) else 2
+    if not eqv:
+        kmax = 1 if d == 3 else 2
+    in_sig = gen.draw_signature(data, d, kmax=kmax, min_types=1, max_types=3, cmax=2)
+    out_sig = gen.draw_signature(data, d, kmax=kmax, min_types=1, max_types=3, cmax=2)
+    downs = data.draw(st.integers(1, 2 if d == 2 else 1), label="num_downsamples") if cls == "UNet" else 0
+    mult = 2**downs
+    N = mult * data.draw(st.integers(1, 2), label="N_mult") if cls == "UNet" else data.draw(st.sampled_from([3, 4, 5] if d == 2 else [3]), label="N")
+    if cls == "UNet":
+        N = max(N, 4 if d == 2 else 2)
+    cfg = {
+        "cls": cls, "d": d, "equivariant": eqv, "G": data.draw(st.sampled_from(["B", "B", "SO", "C2"]), label="G"),
+        "in_sig": in_sig, "out_sig": out_sig, "depth": data.draw(st.integers(1, 3), label="depth"),
+        "num_blocks": data.draw(st.integers(1, 2), label="num_blocks"), "num_conv": data.draw(st.integers(1, 2), label="num_conv"),
+        "num_downsamples": downs, "act": data.draw(st.sampled_from(["relu", "gelu", "tanh"] + (["none"] if cls in ("ConvBlock",) else [])), label="act"),
+        "group_norm": group_norm, "preact": data.draw(st.booleans(), label="preact"),
+        "bias": data.draw(st.sampled_from(["auto", "auto", "mean", "scalar", True, False]), label="bias") if eqv else data.draw(st.sampled_from(["auto", True, False]), label="bias"),
+        "torus": data.draw(st.booleans(), label="torus"), "N": N, "kernel_size": data.draw(st.sampled_from([1, 3]), label="kernel_size"),
+        "explicit_mid": data.draw(st.booleans(), label="explicit_mid_keys"), "seed": data.draw(st.integers(0, 99999), label="seed"),
+    }
+    if cls == "ConvBlock" and cfg["preact"]:
+        # pre-activation order applies the norm / nonlinearity built for the output signature to the input: only defined when they agree
+        cfg["out_sig"] = [list(map(lambda v: list(v) if isinstance(v, list) else v, s_)) for s_ in in_sig]
+    if cfg["explicit_mid"] and eqv:
+        mid = gen.draw_signature(data, d, kmax=kmax, min_types=1, max_types=3, cmax=1)
+        for m in mid:
+            m[1] = cfg["depth"]
+        cfg["mid_sig"] = mid
+    if eqv:
+        # constructive: keep only banks for which the architecture can be evaluated at all (see simulate_types)
+        for G in [cfg["G"], "SO", "C2"]:
+            cfg["G"] = G
+            if simulate_types(cfg) is not None:
+                break
+    return cfg
+
+
+def cfg_key(cfg):
+    return {k: v for k, v in cfg.items() if k not in ("seed",)}
+
+
+def model_kmax(cfg):
+    ks = [t[0][0] for t in cfg["in_sig"] + cfg["out_sig"] + cfg.get("mid_sig", [])]
+    return max(ks)
+
+
+def model_banks(cfg):
+    d = cfg["d"]
+    km = model_kmax(cfg)
+    ks = tuple(range(0, 2 * km + 1))
+    return bank(d, cfg["G"], (3,), ks), bank(d, cfg["G"], (2,), ks)
+
+
+def build_model(cfg, seed=None):
+    d = cfg["d"]
+    key = random.PRNGKey(cfg["seed"] if seed is None else seed)
+    in_sig, out_sig = gen.sig_tuple(cfg["in_sig"]), gen.sig_tuple(cfg["out_sig"])
+    eqv = cfg["equivariant"]
+    conv_filters, up_filters = model_banks(cfg) if eqv else (None, None)
+    mid = gen.sig_tuple(cfg["mid_sig"]) if (eqv and cfg.get("mid_sig")) else None
+    act = ACTS[cfg["act"]]
+    ks = None if eqv else cfg["kernel_size"]
+    cls = cfg["cls"]
+    if cls == "UNet":
+        return models.UNet(d, in_sig, out_sig, cfg["depth"], cfg["num_downsamples"], cfg["num_conv"], cfg["bias"], act, eqv, conv_filters, up_filters,
+                           ks if ks is None else 3, cfg["group_norm"], False, mid, key)
+    if cls == "ResNet":
+        return models.ResNet(d, in_sig, out_sig, cfg["depth"], cfg["num_blocks"], cfg["num_conv"], cfg["bias"], act, eqv, conv_filters, ks,
+                             cfg["group_norm"], cfg["preact"], mid, key)
+    if cls == "DilResNet":
+        return models.DilResNet(d, in_sig, out_sig, cfg["depth"], 1, cfg["bias"], act, eqv, conv_filters, ks if ks is None else 3, cfg["group_norm"], mid, key)
+    if cls == "ConvBlock":
+        if not eqv:
+            raise HarnessError("conventional ConvBlock needs scalar signatures; not generated")
+        return models.ConvBlock(d, in_sig, out_sig, cfg["bias"], act, True, conv_filters, None, cfg["group_norm"], False, cfg["preact"], key)
+    raise HarnessError(cls)
+
+
+def model_input(cfg, seed, batch=None, kind="normal"):
+    d, N = cfg["d"], cfg["N"]
+    rng = np.random.default_rng(seed)
+    X = {}
+    for (k, p), c in gen.sig_tuple(cfg["in_sig"]):
+        shp = (() if batch is None else (batch,)) + (c,) + (N,) * d + (d,) * k
+        X[(k, p)] = rng.standard_normal(shp).astype(np.float32) if kind == "normal" else gen.ident_array(shp, start=1).astype(np.float32)
+    return X
+
+
+def to_mi(d, X, torus):
+    tor = (bool(torus),) * d if isinstance(torus, bool) else tuple(bool(t) for t in torus)
+    return geom.MultiImage({t: jnp.asarray(a, dtype=jnp.float32) for t, a in X.items()}, d, tor)
+
+
+def call_model(model, mi):
+    out = model(mi)
+    return out[0] if isinstance(out, tuple) else out
+
+
+_KEYSETS = {}
+
+
+def bank_keys(d, G, M, kmax):
+    """(k,p) for which a G-invariant filter of side M exists, from the character formula (independent of the library)."""
+    key = (d, G, M, kmax)
+    if key not in _KEYSETS:
+        ops = ref.named_group(G, d)
+        _KEYSETS[key] = {(k, p) for k in range(kmax + 1) for p in (0, 1) if ref.burnside(ops, d, M, k, p) > 0}
+    return _KEYSETS[key]
+
+
+def simulate_types(cfg):
+    """Mirror the layer sequence of the architecture on type sets: which requested output types are reachable from the input
+    types through the filter types that exist. Returns the ordered list ((k,p),c) in requested order, or None when the
+    architecture itself cannot be evaluated for this bank (a residual sum / skip concatenation would meet different type sets)."""
+    d = cfg["d"]
+    km = model_kmax(cfg)
+    K3 = bank_keys(d, cfg["G"], 3, 2 * km)
+    K2 = bank_keys(d, cfg["G"], 2, 2 * km)
+
+    def step(S, targets, K):
+        return [t for t in targets if any(((s[0] + t[0]), (s[1] + t[1]) % 2) in K for s in S)]
+
+    in_t = [t for t, _ in gen.sig_tuple(cfg["in_sig"])]
+    out_sig = gen.sig_tuple(cfg["out_sig"])
+    out_t = [t for t, _ in out_sig]
+    if cfg.get("mid_sig"):
+        mid_t = [t for t, _ in gen.sig_tuple(cfg["mid_sig"])]
+    else:
+        mid_t = sorted(set(in_t) | set(out_t))
+    cls = cfg["cls"]
+    if cls == "ConvBlock":
+        R = step(in_t, out_t, K3)
+    elif cls in ("ResNet", "DilResNet"):
+        S = step(in_t, mid_t, K3)
+        S = step(S, mid_t, K3)
+        nblocks = cfg["num_blocks"] if cls == "ResNet" else 1
+        nconv = cfg["num_conv"] if cls == "ResNet" else 7
+        for _ in range(nblocks):
+            S0 = S
+            for _ in range(nconv):
+                S = step(S, mid_t, K3)
+            if set(S) != set(S0):
+                return None
+        S = step(S, mid_t, K3)
+        R = step(S, out_t, K3)
+    else:  # UNet
+        S = step(in_t, mid_t, K3)
+        for _ in range(cfg["num_conv"] - 1):
+            S = step(S, mid_t, K3)
+        residuals = []
+        for _ in range(cfg["num_downsamples"]):
+            residuals.append(S)
+            for _ in range(cfg["num_conv"]):
+                S = step(S, mid_t, K3)
+        for res in reversed(residuals):
+            U = step(S, mid_t, K2)
+            if set(U) != set(res):
+                return None
+            S = U
+            for _ in range(cfg["num_conv"]):
+                S = step(S, mid_t, K3)
+        R = step(S, out_t, K3)
+    if not R and cls != "ConvBlock":
+        pass
+    return [(t, c) for t, c in out_sig if t in R]
